@@ -62,6 +62,7 @@ type Exec struct {
 	steps         int
 	budget        int
 	maxDepth      int
+	syncMaps      map[Ptr]*Map
 	depth         int
 	stack         []*frame
 	deferOwner    []*frame
@@ -99,6 +100,8 @@ type Violation struct {
 	Path    []Decision
 	Where   string
 	Tainted bool
+	Other   []ReplayInput // "history": the inputs of the execution compared with
+	Label   string        // "history": the observation that differs
 }
 
 type ReplayInput struct {
@@ -715,6 +718,7 @@ func (ex *Exec) resetPath(item WorkItem) {
 	ex.onceDepth = 0
 	ex.lastRaces = nil
 	ex.pools = nil
+	ex.syncMaps = nil
 }
 
 // runPath executes the harness once along the given decision prefix.
@@ -885,6 +889,7 @@ type HarnessRun struct {
 	SampleK      int // sample every k-th leaf for native validation
 	MaxPaths     int
 	Deadline     time.Time // stop taking new paths after this instant (zero: none)
+	KeepAll      bool      // keep the inputs and observations of every path (cross-path comparison)
 	mu           sync.Mutex
 	leafCount    int
 	inconclusive int
@@ -994,7 +999,7 @@ func (e *Engine) explore(h *HarnessRun, workers int) *RunStats {
 					if len(st.Samples) < 12 {
 						st.Samples = append(st.Samples, res.Sample)
 					}
-					if len(st.Validate) < e.maxValidate {
+					if len(st.Validate) < e.maxValidate || (h.KeepAll && len(st.Validate) < 20000) {
 						st.Validate = append(st.Validate, res.Inputs)
 						st.ValidateWant = append(st.ValidateWant, res.Outcome)
 						st.ValidateObs = append(st.ValidateObs, res.Obs)
